@@ -16,6 +16,7 @@ import (
 	"fmt"
 	"strconv"
 	"strings"
+	"time"
 
 	qo "github.com/shpandrak/shpanstream/utils/timeseries/tsquery/queryopenapi"
 )
@@ -29,6 +30,7 @@ func execC19(caseText string) string {
 	if len(toks) == 0 {
 		return "bad-case"
 	}
+	c19SetWindow(caseText)
 	switch toks[0] {
 	case "ord":
 		return execC19Ord(toks[1:])
@@ -202,4 +204,16 @@ func c19Clean(s string) string {
 		s = s[:160]
 	}
 	return s
+}
+
+// c19SetWindow: the execution window follows the season of the case's data (see c19Gen.ts): winter, a daylight-saving
+// switch, summer.
+func c19SetWindow(caseText string) {
+	c19From, c19To = time.Date(2024, 12, 31, 0, 0, 0, 0, time.UTC), time.Date(2025, 1, 4, 0, 0, 0, 0, time.UTC)
+	switch {
+	case strings.Contains(caseText, "2025-07-0"):
+		c19From, c19To = time.Date(2025, 6, 30, 0, 0, 0, 0, time.UTC), time.Date(2025, 7, 4, 0, 0, 0, 0, time.UTC)
+	case strings.Contains(caseText, "2025-03-29T") || strings.Contains(caseText, "2025-03-30T"):
+		c19From, c19To = time.Date(2025, 3, 28, 0, 0, 0, 0, time.UTC), time.Date(2025, 4, 1, 0, 0, 0, 0, time.UTC)
+	}
 }
